@@ -249,6 +249,112 @@ pub fn child_main(seed: u64, first: u64, n: u64, out: &str) {
     std::fs::write(out, j.render()).expect("child result");
 }
 
+/// Removal race: one thread removes a bar from a visible MultiProgress while another keeps calling
+/// into that bar. Every call on the bar is linearised either before the removal (then the frame it
+/// paints contains the bar) or after it (then it must not touch the terminal at all): a frame
+/// flushed by the caller thread that does NOT show the bar is a terminal operation of a removed bar.
+fn remove_race_case(seed: u64, idx: u64) -> CaseOut {
+    use indicatif::verif_hooks as vh;
+    use std::sync::atomic::{AtomicBool, AtomicU64, Ordering};
+    use std::sync::Arc;
+    let mut rng = Rng::derive(seed, 606, idx);
+    let replay = format!("r{seed}:{idx}");
+    let mut co = CaseOut::held(fnv1a(format!("race{seed}:{idx}").as_bytes()), true);
+    let spy = SpyTerm::new(60, 30, false);
+    {
+        let mut st = spy.state();
+        st.snap_on_flush = true;
+        st.record_flush_threads = true;
+    }
+    let word = Arc::new(AtomicU64::new(crate::prng::splitmix(seed ^ idx) | 1));
+    let w2 = word.clone();
+    let session = vh::Session::new(
+        None,
+        false,
+        Some(Box::new(move |p: &vh::DelayPoint| {
+            let mut x = w2.load(Ordering::Relaxed);
+            x ^= x << 13;
+            x ^= x >> 7;
+            x ^= x << 17;
+            w2.store(x, Ordering::Relaxed);
+            if matches!(p.kind, vh::DelayKind::BeforeRequest | vh::DelayKind::AfterRelease) && x % 3 == 0 {
+                std::thread::sleep(Duration::from_micros(x % 300));
+            }
+        })),
+    );
+    let n_ops = rng.range(20, 120);
+    let pre = rng.range(0, 30);
+    let (tx, rx) = std::sync::mpsc::channel();
+    let spy2 = spy.clone();
+    std::thread::spawn(move || {
+        vh::install(Some(session));
+        let mp = MultiProgress::with_draw_target(ProgressDrawTarget::term_like(spy2.boxed()));
+        let mk = |i: usize| {
+            let pb = mp.add(ProgressBar::with_draw_target(Some(100), ProgressDrawTarget::hidden()));
+            pb.set_style(ProgressStyle::with_template(&format!("B{i} {{msg}}")).unwrap());
+            pb.set_message("x");
+            pb
+        };
+        let other = mk(0);
+        let victim = mk(1);
+        other.tick();
+        victim.tick();
+        let removed = Arc::new(AtomicBool::new(false));
+        let (v2, r2) = (victim.clone(), removed.clone());
+        let user = vh::thread::spawn(move || {
+            let mut after_removed_calls = 0u64;
+            for i in 0..n_ops {
+                let was_removed = r2.load(Ordering::SeqCst);
+                v2.set_message(format!("m{i}"));
+                if was_removed {
+                    after_removed_calls += 1;
+                }
+            }
+            after_removed_calls
+        });
+        let user_id = user.logical_id();
+        for _ in 0..pre {
+            std::thread::yield_now();
+        }
+        mp.remove(&victim);
+        let calls_at_return = spy2.calls();
+        removed.store(true, Ordering::SeqCst);
+        let after = user.join().unwrap_or(0);
+        let _ = tx.send((user_id, calls_at_return, after));
+        std::mem::forget(other);
+        drop(victim);
+        drop(mp);
+    });
+    let Ok((user_id, _calls_at_return, after_calls)) = rx.recv_timeout(Duration::from_secs(30)) else {
+        co.verdict = Verdict::Inconclusive("remove race did not complete within the watchdog".into());
+        return co;
+    };
+    let st = spy.state();
+    let snaps = &st.snaps;
+    let threads = &st.flush_logical;
+    let w = J::obj().with("variant", "remove-race").with("calls_by_user_thread", n_ops).with("calls_started_after_remove_returned", after_calls);
+    let mut user_frames = 0u64;
+    for (i, s) in snaps.iter().enumerate() {
+        if threads.get(i).copied().flatten() == user_id && user_id.is_some() {
+            user_frames += 1;
+            if !s.rows.iter().any(|r| r.starts_with("B1 ")) {
+                co.verdict = viol(
+                    "removed-bar-touched-terminal",
+                    vec!["remove-race".into(), "concurrent".into()],
+                    format!("a call on the bar painted frame {i} {:?} although the bar is no longer a member (it is not part of the frame it painted itself)", s.rows),
+                    w,
+                    replay,
+                );
+                return co;
+            }
+        }
+    }
+    co.count("remove_race_runs", 1);
+    co.count("frames_painted_by_calls_on_the_bar_being_removed", user_frames);
+    co.count("calls_started_after_remove_returned", after_calls);
+    co
+}
+
 pub fn run(cfg: &RunCfg) -> PropResult {
     let mut report;
     if let Some(case) = &cfg.case {
@@ -259,12 +365,16 @@ pub fn run(cfg: &RunCfg) -> PropResult {
         report = Report::default();
         if kind == 'i' {
             report.add(idx, inproc_case(seed, idx));
+        } else if kind == 'r' {
+            report.add(idx, remove_race_case(seed, idx));
         } else {
             run_children(&mut report, seed, idx, 1, 1);
         }
     } else {
         let n = if cfg.thorough { 600_000 } else { 20_000 };
         report = run_parallel(n, workers(), |i| inproc_case(cfg.seed, i));
+        let nr = if cfg.thorough { 30_000 } else { 600 };
+        report.merge(run_parallel(nr, 8, |i| remove_race_case(cfg.seed, i)));
         let (children, per) = if cfg.thorough { (16, 6000) } else { (8, 400) };
         run_children(&mut report, cfg.seed, 0, children, per);
     }
